@@ -140,7 +140,7 @@ Definition check_ipf (pinned : quirks) (c : ipf_case) : result :=
   let corr := model_matches pinned c && std_agrees c in
   let prop := prop_ipf c in
   let attrib :=
-    if negb prop && corr && q_mapped_entry_dead pinned && model_ideal_expected c then 1 else 0 in
+    if negb prop && corr && q_mapped_entry_dead pinned && model_ideal_expected c then 51 else 0 in
   (corr, prop, class_ipf c, attrib).
 
 Definition explain_ipf (pinned : quirks) (c : ipf_case) :=
@@ -232,7 +232,7 @@ Definition check_mux (pinned : quirks) (c : mux_case) : result :=
   let attrib :=
     if negb prop && corr && q_hit_skips_visited_rules pinned &&
        prop_all ds tw (run off s [] rs) && prop_all ds tw (run_nocache off s rs)
-    then 2 else 0 in
+    then 52 else 0 in
   (corr, prop, class_mux c, attrib).
 
 Definition explain_mux (pinned : quirks) (c : mux_case) :=
